@@ -12,7 +12,7 @@ use flsrc::eval::Evaluator;
 use refchess::{sq_of, Color, Kind, Pos};
 use serde_json::{json, Value};
 
-pub const RULE: &str = "one long-lived Evaluator fed a generated sequence of 2..60 positions (C01 mixture + extreme-material family: up to nine queens/all men vs bare king, both colours, all phases). Oracle (algebraic laws): value from the long-lived evaluator == value from a fresh Evaluator::new() == value on immediate re-evaluation (purity); eval(side-to-move swapped) == -eval exactly; eval(rank-mirrored, colours and side exchanged) == eval; |eval| < 32767 (maximum reported). Non-trivial = material unbalanced or placement not mirror-symmetric; distinct by FEN. Marathons: one evaluator fed 150 k (1.5 M thorough) generated positions with ever new pawn structures, each value compared with a fresh evaluator.";
+pub const RULE: &str = "one long-lived Evaluator fed a generated sequence of 2..60 positions (C01 mixture + extreme-material family: up to nine queens/all men vs bare king, both colours, all phases). Oracle (algebraic laws): value from the long-lived evaluator == value from a fresh Evaluator::new() == value on immediate re-evaluation (purity); eval(side-to-move swapped) == -eval exactly; eval(rank-mirrored, colours and side exchanged) == eval; |eval| < 32767 (maximum reported). Non-trivial = material unbalanced or placement not mirror-symmetric; distinct by FEN. Enumerated part 'material': every material signature with up to three men besides the king on each side (56 x 56 multisets of P N B R Q) in 60 (thorough 400) derived placements each, a whole row of signatures through one evaluator, same laws. Marathons: one evaluator fed 150 k (1.5 M thorough) generated positions with ever new pawn structures, each value compared with a fresh evaluator.";
 
 pub const BOUND: i32 = 32767;
 
@@ -248,12 +248,104 @@ pub fn fuzz_entry(bytes: &[u8]) -> Verdict {
     check(bytes, &mut st)
 }
 
+/// Enumerated part 'material': every material signature with up to three men besides the king on
+/// each side (all multisets of P N B R Q of size 0..3, 56 x 56 signatures), each in several derived
+/// placements (bishops on both square colours, pawns on every rank, kings apart), either side to
+/// move — special cases of an evaluation are usually keyed on material, and a sampling generator
+/// meets 'exactly one bishop each on opposite colours and nothing else' by luck only.  A run of
+/// signatures goes through ONE evaluator, so what it keeps from the previous call meets the next
+/// signature's look-alikes.
+fn material_signatures() -> Vec<Vec<Kind>> {
+    let kinds = [Kind::P, Kind::N, Kind::B, Kind::R, Kind::Q];
+    let mut v: Vec<Vec<Kind>> = vec![vec![]];
+    for a in 0..5 {
+        v.push(vec![kinds[a]]);
+        for b in a..5 {
+            v.push(vec![kinds[a], kinds[b]]);
+            for c in b..5 {
+                v.push(vec![kinds[a], kinds[b], kinds[c]]);
+            }
+        }
+    }
+    v
+}
+
+fn material_position(w: &[Kind], b: &[Kind], variant: u64) -> Option<Pos> {
+    let mut p = Pos::empty();
+    let mut h = mix(variant.wrapping_mul(0x9e37_79b9_7f4a_7c15) ^ (w.len() as u64) << 7 ^ (b.len() as u64) << 3);
+    let mut next = |n: u64| {
+        h = mix(h);
+        h % n
+    };
+    let wk = next(64) as u8;
+    let mut bk = next(64) as u8;
+    let adj = |a: u8, b: u8| ((a % 8) as i32 - (b % 8) as i32).abs() <= 1 && ((a / 8) as i32 - (b / 8) as i32).abs() <= 1;
+    let mut g = 0;
+    while adj(wk, bk) && g < 64 {
+        bk = (bk + 19) % 64;
+        g += 1;
+    }
+    p.sq[wk as usize] = Some((Color::W, Kind::K));
+    p.sq[bk as usize] = Some((Color::B, Kind::K));
+    for (col, men) in [(Color::W, w), (Color::B, b)] {
+        for k in men {
+            let mut placed = false;
+            for _ in 0..40 {
+                let q = next(64) as u8;
+                if p.sq[q as usize].is_some() || (*k == Kind::P && (q < 8 || q >= 56)) {
+                    continue;
+                }
+                p.sq[q as usize] = Some((col, *k));
+                placed = true;
+                break;
+            }
+            if !placed {
+                return None;
+            }
+        }
+    }
+    p.stm = if next(2) == 0 { Color::W } else { Color::B };
+    if p.opponent_in_check() {
+        p.stm = p.stm.other();
+        if p.opponent_in_check() {
+            return None;
+        }
+    }
+    Some(p)
+}
+
+fn judge_material_row(wi: usize, sigs: &[Vec<Kind>], variants: u64, stats: &mut Stats) -> Verdict {
+    let mut seq: Vec<(Pos, &'static str)> = Vec::new();
+    for b in sigs {
+        for v in 0..variants {
+            if let Some(p) = material_position(&sigs[wi], b, v * 977 + wi as u64) {
+                seq.push((p, "material"));
+            }
+        }
+    }
+    eng::set_counter_wish(0, 1);
+    stats.class_n("material_signature_positions", seq.len() as u64);
+    judge_sequence(&seq, stats)
+}
+
 pub fn run(tier: Tier, seed: u64, known: &Known) -> PropRun {
     let mut run = PropRun::new("exploration", RULE);
     run.assumptions = vec![
         "'well inside the search window' is judged as |eval| < 32767 (necessary condition); the measured maximum is reported under maxima".into(),
         "the side-swapped position need not be a valid position; evaluate is total on boards".into(),
     ];
+    {
+        let sigs = material_signatures();
+        let rows: Vec<usize> = (0..sigs.len()).collect();
+        let variants = tier.pick(60u64, 400u64);
+        run.stats.class_n("material_signatures_per_side", sigs.len() as u64);
+        let (st, fl) = crate::runner::run_enumerated("material", &rows, crate::props::threads(), seed, known, |i, st| judge_material_row(*i, &sigs, variants, st));
+        run.stats.merge(st);
+        if fl.is_some() {
+            run.failure = fl;
+            return run;
+        }
+    }
     let part = Part { name: "sequences", cases: tier.pick(40_000, 600_000), min_len: 32, max_len: 4000, max_shrink: 4000, threads: threads() };
     let (st, fl) = run_part(&part, seed, known, check);
     run.stats.merge(st);
